@@ -139,7 +139,7 @@ def unsupported_rejected():
   return Obligation('C16/swimmer/unsupported_backends', 'brax.envs.swimmer:Swimmer.__init__', 'the only env with a restricted backend set rejects the others explicitly', run, backend='eval', budget=120)
 
 
-def rollout(env_name, backend, steps, batch, tiers):
+def rollout(env_name, backend, steps, batch, tiers, episode_length=None, nkeys=1):
   def run():
     try:
       with jax.enable_x64(False):
@@ -151,12 +151,12 @@ def rollout(env_name, backend, steps, batch, tiers):
   def run32():
     from brax import envs
     from brax.envs.wrappers import training
-    env = training.wrap(envs.get_environment(env_name, backend=backend), episode_length=max(50, steps // 2), action_repeat=1)
-    key = jax.random.PRNGKey(seed() + 11)
+    env = training.wrap(envs.get_environment(env_name, backend=backend), episode_length=episode_length or max(50, steps // 2), action_repeat=1)
     asz = env.action_size
     evals = 0
     worst_unit = 0.0
-    for mode in ('uniform', 'bangbang'):
+    for mode, kk in [(m_, k_) for k_ in range(nkeys) for m_ in (('uniform', 'bangbang') if k_ == 0 else ('bangbang',))]:
+      key = jax.random.PRNGKey(seed() + 11 + kk)
       k1, k2 = jax.random.split(jax.random.fold_in(key, 0 if mode == 'uniform' else 1))
       st = jax.jit(env.reset)(jax.random.split(k1, batch))
 
@@ -201,8 +201,11 @@ def obligations(tier):
       k += 1
   for e, b in [('inverted_pendulum', 'generalized'), ('reacher', 'spring'), ('hopper', 'positional'), ('swimmer', 'generalized')]:
     obs.append(rollout(e, b, 100, 4, Q))
+  # environments that stay finite only because their termination conditions + auto-reset cut unstable episodes short (ant on the generalized backend under saturating
+  # actions) need long, wide rollouts to show a broken termination: one such rollout is part of the quick tier
+  obs.append(rollout('ant', 'generalized', 500, 256, Q, episode_length=1000, nkeys=2))
   for e in ENVS:
     for b in BACKENDS:
-      if supported(e, b) and (e, b) not in [('inverted_pendulum', 'generalized'), ('reacher', 'spring'), ('hopper', 'positional'), ('swimmer', 'generalized')]:
+      if supported(e, b) and (e, b) not in [('inverted_pendulum', 'generalized'), ('reacher', 'spring'), ('hopper', 'positional'), ('swimmer', 'generalized'), ('ant', 'generalized')]:
         obs.append(rollout(e, b, 300, 8, Th))
   return obs
